@@ -1329,6 +1329,14 @@ fn exponentiate(value: u64, exp: u32) -> Option<u64> {
     10_u64.checked_pow(exp).and_then(|x| x.checked_mul(value))
 }
 
+/// The replacement character ':' (LRM 15.10) only starts a based literal when
+/// an extended digit follows, otherwise it is a delimiter as in `range 0 to 1:= 1`
+fn colon_starts_based_literal(reader: &ContentReader<'_>) -> bool {
+    let mut lookahead = reader.clone();
+    lookahead.skip();
+    matches!(lookahead.peek(), Ok(Some(next)) if next.is_ascii_alphanumeric())
+}
+
 /// LRM 15.5 Abstract literals
 fn parse_abstract_literal(
     buffer: &mut Latin1String,
@@ -1404,9 +1412,10 @@ fn parse_abstract_literal(
 
         // Based integer or based real
         // based_literal ::= base # based_integer [ . based_integer ] # [ exponent ]
-        Some(b'#') => {
+        // Both '#' may be replaced by ':' (LRM 15.10)
+        Some(delim @ (b'#' | b':')) if delim == b'#' || colon_starts_based_literal(reader) => {
             let (base, mut base_text) = initial?;
-            base_text.push(b'#');
+            base_text.push(delim);
             reader.skip();
             let base_result = parse_integer(reader, base, false);
 
@@ -1418,7 +1427,7 @@ fn parse_abstract_literal(
                 None
             };
 
-            if let Some(b'#') = reader.peek()? {
+            if reader.peek()? == Some(delim) {
                 reader.skip();
                 let (integer, mut int_text) = base_result?;
                 base_text.append(&mut int_text);
@@ -1434,7 +1443,7 @@ fn parse_abstract_literal(
                     }
                     None => None,
                 };
-                base_text.push(b'#');
+                base_text.push(delim);
 
                 if !(2..=16).contains(&base) {
                     return Err(TokenError::range(
@@ -1500,7 +1509,7 @@ fn parse_abstract_literal(
                 Err(TokenError::range(
                     state.pos(),
                     reader.pos(),
-                    "Based integer did not end with #",
+                    format!("Based integer did not end with {}", delim as char),
                 ))
             }
         }
@@ -2958,6 +2967,67 @@ my_other_ident",
             vec![Diagnostic::syntax_error(
                 code.pos(),
                 "Integer literals may not have negative exponent",
+            )]
+        );
+    }
+
+    #[test]
+    fn tokenize_based_literal_with_colon_replacement() {
+        // LRM 15.10: both '#' of a based literal may be replaced by ':'
+        assert_eq!(
+            kind_value_tokenize("16:FF:"),
+            vec![(
+                AbstractLiteral,
+                Value::AbstractLiteral(
+                    Latin1String::new(b"16:FF:"),
+                    ast::AbstractLiteral::Integer(255)
+                )
+            ),]
+        );
+        assert_eq!(
+            kind_value_tokenize("2:1:E3"),
+            vec![(
+                AbstractLiteral,
+                Value::AbstractLiteral(
+                    Latin1String::new(b"2:1:E3"),
+                    ast::AbstractLiteral::Integer(8)
+                )
+            ),]
+        );
+        assert_eq!(
+            kind_value_tokenize("16:F.8:"),
+            vec![(
+                AbstractLiteral,
+                Value::AbstractLiteral(
+                    Latin1String::new(b"16:F.8:"),
+                    ast::AbstractLiteral::Real(15.5)
+                )
+            ),]
+        );
+        // A colon that is not followed by an extended digit is a delimiter
+        assert_eq!(
+            kinds_tokenize("0 to 16:= 3"),
+            vec![
+                AbstractLiteral,
+                To,
+                AbstractLiteral,
+                ColonEq,
+                AbstractLiteral
+            ]
+        );
+        assert_eq!(
+            kinds_tokenize("16: x"),
+            vec![AbstractLiteral, Colon, Identifier]
+        );
+
+        let code = Code::new("16:FF");
+        let (tokens, diagnostics, _) = code.tokenize_result();
+        assert_eq!(tokens, vec![]);
+        assert_eq!(
+            diagnostics,
+            vec![Diagnostic::syntax_error(
+                code.pos(),
+                "Based integer did not end with :",
             )]
         );
     }
